@@ -192,3 +192,23 @@ def gen_workloads(rng, shapes, n, maxrecs=12, pages=(1, 2, 3, 7, 1000), codecs=(
             ops.append("W")
         out.append(Workload(sh, rng.choice(codecs), rng.choice(pages), ops, "random"))
     return out
+
+
+def replay_workload(chk, data, oracles, mutate=False, validate_level=1, read=True):
+    """re-run one stored workload (see Workload.replay) through the given oracles"""
+    shapes, runner = get_portfolio(chk)
+    if not runner:
+        return
+    sh = next((x for x in shapes if x.name == data.get("shape")), None)
+    if sh is None:
+        chk.broke("replay", "shape %s of the replay file is not in the portfolio" % data.get("shape"))
+        return
+    w = Workload(sh, int(data["codec"]), int(data["page_size"]), list(data["ops"]), "replay")
+    res = exercise(chk, runner, shapes, [w], chk.id + "-replay", validate_level=validate_level, read=read, mutate=mutate)
+    correspondence(chk, res)
+    chk.count(("replay", w.shape.name, tuple(w.ops)))
+    chk.count(("replay-marker",))
+    for o in oracles:
+        o(chk, res[0])
+    chk.sample({"replayed": w.describe(), "validator": (res[0].get("validate_raw") or "")[:120], "read": (res[0].get("read_impl_raw") or "")[:120]})
+    chk.coverage["rule"] = "replay of one stored failing workload"
